@@ -16,6 +16,9 @@ CLAIMS = {}
 
 
 def claim(pid, technique, text, note, ref):
+    from tools.manifest_table import ROUND3
+    if pid in ROUND3:
+        text = text.rstrip() + " Added after the third seed round: " + ROUND3[pid]
     CLAIMS[pid] = (technique, text, note, ref)
 
 
